@@ -81,6 +81,8 @@ def make_case(rng, cid, what):
     """what: set of batches wanted: valid, broken, sources, groups, raw"""
     if "sources" in what and rng.random() < 0.3:
         return source_multi_case(rng, cid)
+    if ("valid" in what or "broken" in what) and rng.random() < 0.12:
+        return constraint_spelling_case(rng, cid)
     if "groups" in what and rng.random() < 0.25:
         return group_freevalue_case(rng, cid)
     if "groups" in what and rng.random() < 0.2:
@@ -353,6 +355,50 @@ def group_freevalue_case(rng, cid):
                 out.append("pa group x-lbl=gfv-group-ok x-exp=%s %s -- %s" % (G.hx(exp_ok), o, words_hex(pre + head)))
                 out.append("pa group x-lbl=gfv-group-free x-exp=%s %s -- %s" % (G.hx("throw"), o, words_hex(pre + head + extra)))
     return Case(cid, lines + out)
+
+
+def constraint_spelling_case(rng, cid):
+    """several constraints naming the SAME argument through different spellings (short only, long only, both), the
+    constrained argument used through every key form: every requirement must be met by one use of the target, every
+    exclusion must bite whatever spelling was used"""
+    sc, sa, sb, sd = rng.sample(G.SHORTS, 4)
+    lc, la, lb = rng.sample(G.LONGS, 3)
+    abbr = rng.randint(0, 1)
+    if abbr and any(x != y and (x.startswith(y) or y.startswith(x)) for x in (lc, la, lb) for y in (lc, la, lb)):
+        abbr = 0
+    spell_c = [sc, lc, "%s,%s" % (sc, lc)]
+    typ = rng.choice(["req", "excl"])
+    s1, s2 = rng.sample(spell_c, 2)
+    both = ";".join(rng.sample(spell_c, rng.randint(2, 3)))
+    lines = ["pa cfg begin abbr=%d" % abbr,
+             "pa arg key=%s,%s kind=int" % (sc, lc),
+             "pa arg key=%s,%s kind=flag %s=%s" % (sa, la, typ, s1),
+             "pa arg key=%s,%s kind=flag %s=%s" % (sb, lb, typ, s2),
+             "pa arg key=%s kind=flag %s=%s" % (sd, typ, both),
+             "pa cfg end"]
+    use_c = [["-" + sc, "7"], ["--" + lc, "7"], ["--%s=7" % lc], ["-%s7" % sc]]
+    if abbr and len(lc) > 2:
+        use_c.append(["--" + lc[:-1], "7"])
+    ka = lambda: rng.choice(["-" + sa, "--" + la])
+    kb = lambda: rng.choice(["-" + sb, "--" + lb])
+    out = []
+
+    def add(label, exp, ws):
+        out.append("pa eval x-lbl=%s x-exp=%s -- %s" % (label, G.hx(exp), words_hex(ws)))
+    for uc in use_c:
+        for pre in ([ka()], [kb()], [ka(), kb()], [kb(), ka()], ["-" + sd], [ka(), "-" + sd, kb()]):
+            fa = 1 if any(w in ("-" + sa, "--" + la) for w in pre) else 0
+            fb = 1 if any(w in ("-" + sb, "--" + lb) for w in pre) else 0
+            fd = 1 if ("-" + sd) in pre else 0
+            if typ == "req":
+                add("cs-req-met", "ok 0:i=7 1:f=%d 2:f=%d 3:f=%d" % (fa, fb, fd), pre + uc)
+                add("cs-req-missing", "throw", pre)
+                add("cs-req-before", "throw", uc + pre)          # the requirement takes effect from the requirer's use
+            else:
+                add("cs-excl-after", "throw", pre + uc)
+                add("cs-excl-before", "ok 0:i=7 1:f=%d 2:f=%d 3:f=%d" % (fa, fb, fd), uc + pre)
+    rng.shuffle(out)
+    return Case(cid, lines + out[:24])
 
 
 def group_define_case(rng, cid):
